@@ -78,7 +78,8 @@ class CategoricalBox:
     def __init__(self, data, contrast, levels):
         # If 'data' is ordered and no explicit levels have been passed, use order in 'data'.
         if hasattr(data.dtype, "ordered") and data.dtype.ordered and levels is None:
-            levels = data.dtype.categories.tolist()
+            observed = set(data.dropna()) if hasattr(data, "dropna") else set(data)
+            levels = [level for level in data.dtype.categories.tolist() if level in observed]
         self.data = data
         self.contrast = contrast
         self.levels = levels
